@@ -33,7 +33,8 @@ COMPONENTS = {
 ASSUMPTIONS = [
     'hit guarantee asserted only in the loss-free honest family with round trip below the 5 s RPC timeout and a settle period >= 10 min',
     'a lookup is judged `must hit` only if it ended before announce start + 24 h - 60 s, `must miss` only if it started after announce end + 24 h',
-    'the adversary is finite: fabricated contacts are silent addresses, hostile paging claims at most 12 pages',
+    'fabricated contacts are silent addresses unless the behaviour says otherwise (alias_honest: a live honest node; key_as_id, '
+    'endless_closer: the hostile node itself); endless_pages / endless_closer never run out of fresh material',
     'a clock jump at quiescence is a legal fault (stalled process / NTP step)',
 ]
 EXPECTED_PROBES = ['lookup_must_hit', 'lookup_must_miss', 'lookup_indeterminate', 'announce_ok', 'stored_on_all_k_closest',
@@ -45,7 +46,7 @@ RPC_TIMEOUT = 5.0
 EXPIRY = 86400.0
 
 
-def gen(run_seed, tier):
+def _gen_base(run_seed, tier):
     r = stream('C12.gen', run_seed)
     fam = r.choices(['hit', 'paging', 'faulty', 'heal'], [5, 3, 4, 1.5])[0]
     sc = {'family': fam, 'id_seed': r.getrandbits(32), 'split_under': r.choice([1, 1, 1, 2]), 'hostile': {},
@@ -189,7 +190,8 @@ def gen(run_seed, tier):
         r3 = stream('C12.gen.small_hostile', run_seed)
         if r3.random() < 0.3:
             n = sc['n'] = r3.choice([2, 2, 3, 4])
-            beh = r3.choice(['mixed', 'mixed'] + HOSTILE_BEHAVIOURS)
+            beh = r3.choice(['mixed', 'mixed'] + HOSTILE_BEHAVIOURS +
+                            ['endless_closer', 'endless_pages', 'alias_honest', 'key_as_id'] * 4)
             sc['hostile'] = {str(h): beh for h in range(1, n)}
             sc['hostile_rate'] = r3.choice([1.0, 1.0, 0.7])
             sc['net'] = {'latency': [0.001, r3.choice([0.02, 0.3])], 'dup': r3.choice([0.0, 0.1]), 'loss': 0.0}
@@ -203,6 +205,29 @@ def gen(run_seed, tier):
                             'wait': r3.choice([0.0, 1.0, 10.0]), 'faulty': True})
             sc['ops'] = ops
             sc['small_hostile'] = True
+    return sc
+
+
+def gen(run_seed, tier):
+    sc = _gen_base(run_seed, tier)
+    # configurations: the blob (tcp) port a node announces.  KademliaPeer - and so every searcher that decodes a peer
+    # page - accepts 1024..65535; a node configured below that, or exactly at 65535, is a legal configuration of the
+    # announcer whose consequences must stay with that announcer (own stream)
+    rp = stream('C12.gen.tcp_ports', run_seed)
+    if sc['family'] == 'hit' and rp.random() < 0.3:
+        ann = [op for op in sc['ops'] if op['op'] == 'announce']
+        if ann:
+            first = ann[0]
+            odd = rp.choice([65535, 65535, 1024, 1023, 80, 1])
+            nodes = sorted({op['node'] for op in ann})
+            victim = rp.choice(nodes)
+            sc['tcp_ports'] = {str(victim): odd}
+            if not 1024 <= odd <= 65535 and len(nodes) == 1 and sc['n'] >= 3:
+                # an announcer with an ordinary port for the same blob, announced BEFORE the odd one: it must stay
+                # findable whatever the odd announcement does
+                other = rp.choice([i for i in range(sc['n']) if i != victim])
+                idx = sc['ops'].index(first)
+                sc['ops'].insert(idx, {'op': 'announce', 'node': other, 'blob': first['blob'], 'wait': 0.0})
     return sc
 
 
@@ -278,7 +303,8 @@ def run_dht(scenario, run, monitor=False, corrupt_factory=None, max_steps=12_000
             return None
         if world.nodes[i] if i < len(world.nodes) else None:
             return world.nodes[i]
-        return world.add_node(i, ids[i], bootstrap=(i == 0), split_under=scenario.get('split_under', 1))
+        return world.add_node(i, ids[i], bootstrap=(i == 0), split_under=scenario.get('split_under', 1),
+                              tcp_port=(scenario.get('tcp_ports') or {}).get(str(i)))
 
     async def value_lookup(node, key):
         found = []
@@ -299,7 +325,7 @@ def run_dht(scenario, run, monitor=False, corrupt_factory=None, max_steps=12_000
             sent = world.requests_by_node.get(addr, 0) - before
             # a lookup that keeps issuing probes without ever finishing (e.g. re-probing contacts it has already
             # asked) is as stuck as one that waits for ever; the finite network bounds the distinct contacts
-            if done or waited >= 4000.0 or sent > 1500 + 30 * n + 20 * len(world.fabricated) or world.net.storm:
+            if done or waited >= 4000.0 or sent > 1500 + 30 * n + 20 * min(len(world.fabricated), 300) or world.net.storm:
                 break
         if not done:
             task.cancel()
@@ -410,6 +436,13 @@ def run_dht(scenario, run, monitor=False, corrupt_factory=None, max_steps=12_000
                     continue
                 stored_to = task.result()
                 run.ev('announce', i, len(stored_to), round(dur, 3))
+                if str(i) in (scenario.get('tcp_ports') or {}):
+                    run.probes['announce_odd_tcp_port_%d' % node.protocol.peer_port] += 1
+                if not 1024 <= node.protocol.peer_port <= 65535:
+                    # not an address any searcher can use: no hit guarantee for THIS announcer (being refused is fine),
+                    # the other announcers of the blob are judged as always
+                    run.probes['announce_unusable_tcp_port'] += 1
+                    continue
                 if fam == 'faulty':
                     # announce = node lookup + find_value/store RPC pairs (each bounded by the RPC timeout)
                     check_bound('announce', i, dur, reqs + 2)
@@ -509,7 +542,14 @@ def run_dht(scenario, run, monitor=False, corrupt_factory=None, max_steps=12_000
                         if p.address not in replied:
                             run.violation('C12.yielded_unreplied', f'node lookup by node {i} yielded {p.address}:'
                                           f'{p.udp_port} from which no response was ever delivered to it',
-                                          fabricated=p.node_id in world.fabricated)
+                                          fabricated=p.node_id in world.fabricated, alias=False)
+                            return
+                        # a contact is a node id AT an address: some response from that host must have carried that id
+                        # (a made-up id paired with a live node's address is a contact that never replied)
+                        if p.node_id not in world.replied_ids.get(world.addr_of[i], {}).get(p.address, ()):
+                            run.violation('C12.yielded_unreplied', f'node lookup by node {i} yielded contact '
+                                          f'{p.node_id.hex()[:12]}@{p.address}:{p.udp_port}; that host did reply, but never '
+                                          f'under this node id', fabricated=p.node_id in world.fabricated, alias=True)
                             return
                     continue
                 task, dur, reqs, t0 = await timed(value_lookup(node, key), i)
